@@ -385,6 +385,30 @@ def as_kind(data, kind):
     raise ValueError(kind)
 
 
+_KEEP = None      # when a list: parsed inventories are kept alive and re-read after later parses
+
+
+def recheck_kept(ctx):
+    """every kept inventory is canonicalised again after all later parses: an inventory object must keep
+    the values of ITS image (no state shared between parsed inventories / areas / records)"""
+    kept = _KEEP or []
+    for i, (inv, out, data, kind) in enumerate(kept):
+        ctx.case(('re-read', data, kind))
+        ctx.count('stream:re-read-after-later-parses')
+        try:
+            now = 'ok ' + canon_inventory(inv)
+        except Exception as e:  # noqa
+            now = exc_tag(e)
+        if now != out:
+            later = kept[i + 1:i + 3] + kept[-2:]
+            ctx.violate('C15:result-changed-by-later-parse',
+                        'a parsed inventory reads differently after later images were parsed (state shared between '
+                        'parsed objects)', {'op': 'reread', 'hex': _hex(data), 'kind': kind,
+                                            'later': [[_hex(x[2]), x[3]] for x in later]},
+                        expected=out[:400], observed=now[:400])
+            return
+
+
 def real_parse(data, kind):
     """-> 'ok <view>' | error tag"""
     from pyipmi import fru
@@ -396,7 +420,10 @@ def real_parse(data, kind):
             inv = fru.get_fru_inventory_from_file(path)
         else:
             inv = fru.FruInventory(as_kind(data, kind))
-        return 'ok ' + canon_inventory(inv)
+        out = 'ok ' + canon_inventory(inv)
+        if _KEEP is not None and len(_KEEP) < 500:
+            _KEEP.append((inv, out, bytes(data), kind))
+        return out
     except Exception as e:  # noqa
         return exc_tag(e)
 
@@ -585,6 +612,8 @@ def _run(ctx):
                                 {'op': 'accept', 'hex': _hex(data), 'kind': kind}, expected='checksums hold', observed=real[:100])
 
     # ---- valid stream
+    global _KEEP
+    _KEEP = []
     images = directed_images(rng, ctx.tier)
     n_rand = 250 if quick else 6000
     for _ in range(n_rand):
@@ -655,6 +684,10 @@ def _run(ctx):
         if ctx.time_left() < (40 if quick else 300):
             ctx.notes.append('valid stream stopped at image %d of %d (time)' % (n, len(valid)))
             break
+
+    recheck_kept(ctx)
+    ctx.extra['kept_results_re_read'] = len(_KEEP or [])
+    _KEEP = None
 
     # ---- alteration stream
     n_alt = 14 if quick else 40
@@ -848,6 +881,21 @@ def replay(ctx, v):
                     ok = False
                 return not ok
             return real.startswith('ok ')
+        if op == 'reread':
+            from pyipmi import fru
+            data = lean.unhex(case['hex'])
+            inv = fru.FruInventory(as_kind(data, case['kind'] if case['kind'] in 'bal' else 'b'))
+            first = 'ok ' + canon_inventory(inv)
+            keep = []
+            for hx, kd in case['later']:
+                try:
+                    keep.append(fru.FruInventory(as_kind(lean.unhex(hx), kd if kd in 'bal' else 'b')))
+                except Exception:  # noqa
+                    pass
+            now = 'ok ' + canon_inventory(inv)
+            print('  right after parsing        : %s' % first[:300])
+            print('  after %d later parses       : %s' % (len(keep), now[:300]))
+            return now != first
         if op == 'date':
             data = lean.unhex(case['hex'])
             got = real_date(data)
